@@ -106,7 +106,7 @@ PROPS['C08'] = dict(
 # ------------------------------------------------------------------------------------------------ C19
 PROPS['C19'] = dict(
     level='exploration',
-    rule='cases = lambda in [-5,300] + {INT32_MIN, INT32_MAX}, each in a forked child, per library variant; oracle: SIGABRT outside [1,128]; documented 80-bit set '
+    rule='cases = lambda in [-5,300] + {INT32_MIN, INT32_MAX}, each in a forked child, per library variant, plus all 64 ordered triples over {1,80,81,128} requested in one process; oracle: SIGABRT outside [1,128]; documented 80-bit set '
          'for 1..80 and documented 128-bit set (README table) for 81..128 field by field; derived fields recomputed; structural constraints; formula noise <= bound and >= 12 sigma margin. every case is non-trivial',
     bounds={'quick': 'all 308 lambda x 5 back-ends (optim) + debug', 'thorough': 'all 308 lambda x 5 back-ends x {optim, debug}'},
     assumptions=['documented values are those of README.md (128-bit: n=630, 2^-15, N=1024, 2^-25) and of the 2016 historic set for 80-bit', 'noise formulas: average-case CGGI (Bg^2/12 digits), bounds 0.0037/0.0047 from the property text'],
@@ -124,4 +124,25 @@ PROPS['C20'] = dict(
     assumptions=['public API = functions declared EXPORT in the include closure of tfhe.h', 'functions declared but defined in no variant are consistent (reported as information)'],
     min_outcomes=3,
     jobs=lambda tier, seed: [dict(harness='c20.py', variant='optim', backend='all', needs_variants=['debug'])],
+)
+
+# ------------------------------------------------------------------------------------------------ C10
+def _c10(tier, seed):
+    jobs = []
+    for be in BE:
+        jobs += J('c10.cpp', 'optim', be, n=3 if tier == 'quick' else 6, args=['part=basis'])
+        jobs += J('c10.cpp', 'optim', be, n=1, args=['part=patterns'])
+        jobs += J('c10.cpp', 'debug', be, n=1, args=['part=patterns'])
+        if tier == 'thorough':
+            jobs += J('c10.cpp', 'debug', be, n=6, args=['part=basis'])
+    return jobs
+PROPS['C10'] = dict(
+    level='exploration',
+    rule='cases = (i) basis rows: (B X^i)*(c X^j) for the enumerated j and (B,c) combos through torusPolynomialMultFFT; (B, int pattern, torus pattern, seed) through Mult/AddMulR/SubMulR; '
+         '(torus pattern pair) round trip, AddTo, Clear, Set/AddTorusConstant, Mul, AddMul/SubMul accumulation of 2..8 products. non-trivial = both operands non-zero (all cases). '
+         'oracle = exact negacyclic product mod 2^32; tolerance 2 units for B<=2^9, 2B/2^9 above, 1 unit round trip, 2 units per accumulated term',
+    bounds={'quick': 'N=1024; every i, j in {j = VERIF_SEED mod 16} + wrap boundaries, 2 coefficient combos; 5 magnitudes x 6 x 5 patterns; 25 Lagrange cases; 5 back-ends x optim (+ debug for patterns)',
+            'thorough': 'all 1024^2 basis pairs x 6 coefficient combos x 5 back-ends x {optim, debug}; 3 seeds for seeded patterns'},
+    assumptions=['N=1024 is the only ring size the FFT processors implement (asserted by the library)'],
+    jobs=_c10, max_report=60,
 )
